@@ -372,7 +372,9 @@ type c04 struct{}
 
 func (c04) ID() string { return "C04" }
 
-func (c04) Plan(tier string) []fw.Unit { return planEnum("C04", tier, len(c04Configs(tier)), 1) }
+func (c04) Plan(tier string) []fw.Unit {
+	return append(planEnum("C04", tier, len(c04Configs(tier)), 1), fw.Unit{Check: "C04", Kind: "manual-trigger", Tier: tier, Spec: fw.Spec(enumSpec{})})
+}
 
 func c04Classify(set c04Set, exp, got []string) string {
 	// merged: fewer result rows than distinct tuples; split: more
@@ -386,6 +388,9 @@ func c04Classify(set c04Set, exp, got []string) string {
 }
 
 func (c04) Run(u fw.Unit) fw.Result {
+	if u.Kind == "manual-trigger" {
+		return c04ManualTrigger()
+	}
 	sp := parseEnum(u)
 	cfg := c04Configs(u.Tier)[sp.Cfg]
 	if cfg.Pairs > 0 {
